@@ -37,11 +37,12 @@ def soup(text: str) -> Obligation:
 
         rep = {"harness": H, "fn": "only_family", "params": {}, "call": f"only_family({text!r})"}
         try:
-            jsonpath.JSONPathEnvironment().compile(text)
-            what = "compiled"
-        except jsonpath.JSONPathError as e:
-            str(e)
-            what = f"rejected ({type(e).__name__})"
+            try:
+                jsonpath.JSONPathEnvironment().compile(text)
+                what = "compiled"
+            except jsonpath.JSONPathError as e:
+                str(e)  # rendering the error must succeed too
+                what = f"rejected ({type(e).__name__})"
         except Exception as e:  # noqa: BLE001
             return {"status": "violated", "detail": f"compile({text[:60]!r}) raised {type(e).__name__}: {str(e)[:100]}", "replay": rep}
         return {"status": "discharged", "detail": f"{text[:60]!r} {what}"}
